@@ -181,11 +181,11 @@ Definition all_stages : list stage :=
    SSave; SDrop; SPostFormat].
 
 (* FAITHFUL: what the code does today: statement execution and the whole of fetch_result (representation, select, save) go
-   through _map_query_error; the insert / normalise steps of loading have their own handlers; CREATE TABLE of the loader, the
+   through _map_query_error; CREATE TABLE (_create_table), insert and normalise of the loader have their own handlers; the
    load validation queries, macro installation and the DROPs of cleanup_scheduled_datasets have none *)
 Definition stage_mapper_impl (s : stage) : mapper :=
   match s with
-  | SLoadInsert => MapLoad
+  | SLoadCreate | SLoadInsert => MapLoad
   | SLoadNormalize => MapNormalize
   | SExec | SFetchRepr | SFetchSelect | SSave => MapQuery
   | _ => NoMap
